@@ -103,6 +103,7 @@ func TestC04(t *testing.T) {
 			"oracle: in the backend attempt log every attempt after the first follows an attempt that ended in unavailable/bootstrapping/read-timeout/unprepared, and the client's reply is the last attempt's error (or an error frame for connection loss); "+
 			"non-trivial = non-idempotent request whose script has a non-safe outcome before its end; distinct by (shape, kinds, scripts, schedule)")
 	defer finish(t, rec)
+	rec.SetJournalAll(true)
 	rec.Assume("ground truth of idempotency from cqlgen's derivation; prepared ids are what the proxy itself returned",
 		"a request is 'received' when the fake backend has read the frame; connection loss is only scripted after that point")
 	runProp(t, rec, "storm", perShard(evid.Pick(1500, 60000)), func(rt *rapid.T) stormCase {
